@@ -27,7 +27,7 @@ RULE = (
 )
 ASSUMPTIONS = ["latency bound = SEND_COLLECTION_TIMEOUT plus 4 clock resolutions"]
 FLOORS = {"quick": {"scenarios": 5000, "entries_queued": 150000, "entries_matched": 150000, "datagrams": 40000,
-                    "request_at_close_before": 3000, "request_at_close_after": 3000, "request_close_adjacent": 5000,
+                    "request_at_close_before": 2000, "request_at_close_after": 2000, "request_close_adjacent": 3500,
                     "bursts_over_15": 2000, "zero_timeout_scenarios": 1000, "requests_during_stop": 500, "real_traffic_scenarios": 800,
                     "mesh_scenarios": 100, "mesh_queue_entries_checked": 5000}}
 # system-level shards: the mesh workload of pv/mesh.py under this property's boundary monitors (reports of other monitors are dropped)
@@ -35,6 +35,9 @@ MESH = {"want": ("queue",), "claim": ("mesh:queued-", "mesh:entry-on-the-wire"),
         "quick": (2, 60), "thorough": (16, 1500)}
 
 DSTS = [None, ("10.0.10.2", 30490), ("10.0.10.2", 30491), ("2001:db8::a3", 30490, 0, 0)]  # two peers on one host
+# further unicast destinations that differ from another one in a single component of the socket address only
+# (one link-local address behind two interfaces: scope id; flow label)
+DSTS_MORE = [("fe80::1", 30490, 0, 2), ("fe80::1", 30490, 0, 3), ("2001:db8::a3", 30490, 7, 0)]
 
 
 def wire_dst(d):
@@ -126,6 +129,10 @@ def direct_scenario(ctx, rng, seed, replay):
     ann.queue_send = queue_send
     ndst = rng.randrange(1, 5)
     dsts = DSTS[:ndst]
+    if rng.random() < 0.35:
+        dsts = [None] + rng.sample(DSTS[1:] + DSTS_MORE, rng.randrange(1, 5))
+        if any(d in DSTS_MORE for d in dsts):
+            ctx.count("scenarios_with_sibling_addresses")
     counter = [rng.randrange(1, 1000) << 8]
     now = 0.125
     close = {}  # dst -> close instant of the window opened most recently (model, for placement only)
